@@ -5,7 +5,7 @@
    under d (dirname d) = true, i.e. d = "" or d consisting of slashes only (the root): os.path.lexists
    never reports the root absent on a real system. *)
 From TV Require Import Prelude.Str Prelude.PosixPath Prog.Prog World.World Cmd.Put Cmd.Scan Cmd.Restore
-  Proofs.ProgProofs Proofs.PLogic Proofs.OrigLocProofs Proofs.PathProofs Proofs.WorldProofs Proofs.RestoreProofs.
+  Proofs.ProgProofs Proofs.PLogic Proofs.OrigLocProofs Proofs.PathProofs Proofs.WorldProofs Proofs.WorldPurge Proofs.RestoreProofs.
 Open Scope N_scope.
 
 Definition absent_dst (ow : bool) (s : wstate) (o : op) : Prop :=
@@ -66,6 +66,73 @@ Proof.
     - intros x Hx. apply absent_ok. destruct x; try discriminate; exact I.
     - intros t _. apply restore_one_absent. }
   generalize (all_runs_forall (fun _ : wstate => True) (restore_main o) (fun s t _ => wok (absent_dst (ro_overwrite o)) s t)
+           (fun s _ => all_runs_mono _ _ _ (fun t out H => proj1 H) (awp_sound _ _ _ _ s (HT s)))).
+  apply all_runs_mono. intros t out H s. apply H. exact I.
+Qed.
+
+(* ---------------------------------------------------------------- C15 on the world, for trash-restore:
+   whenever the info file of an entry is removed, its payload is no longer in the trash (it was moved out a moment
+   before); together with the destination being absent at the move. *)
+Definition restore_ok (ow : bool) (s : wstate) (o : op) : Prop := absent_dst ow s o /\ payload_gone s o.
+
+Lemma restore_ok_plain ow o : (match o with Move _ _ | Remove _ | Rmtree _ => False | _ => True end) -> OKop (world_logic (restore_ok ow)) o.
+Proof. intros H s. destruct o; try contradiction; split; exact I. Qed.
+
+Lemma awp_remove_info ow info s :
+  wfs s (path_of_backup_copy info) = None ->
+  awp (restore_ok ow) (remove_file info) (fun _ _ => True) (fun _ _ => True) s.
+Proof.
+  intros Hs. unfold remove_file. apply awp_bind. apply awp_call_bool; [reflexivity|split; exact I|]. intros b s1 [He _].
+  assert (Hs1 : wfs s1 (path_of_backup_copy info) = None).
+  { simpl in He. destruct He as [[_ Hq] _]. rewrite Hq. exact Hs. }
+  destruct b; [|cbn [awp]; exact I].
+  apply awp_catch. apply awp_call_unit; [reflexivity|split; [exact I|intros _; exact Hs1]|intros; exact I|].
+  intros e s2 _ [He2 _]. simpl in He2. cbv beta iota.
+  apply awp_call_unit; [reflexivity|split; [exact I|intros _; destruct He2 as [_ Hq]; rewrite Hq; exact Hs1]|intros; exact I|intros; exact I].
+Qed.
+
+Lemma restore_one_ok t ow : wf_tf t -> T (world_logic (restore_ok ow)) (restore_trashed_file t ow) (fun _ => True).
+Proof.
+  intros Hwf s. unfold restore_trashed_file. apply awp_catch.
+  set (H := fun (s' : wstate) (e : exn) =>
+              match (if is_OSError e then Some (Ret (inr (false, [])) : prog (unit + bool * str)) else None) with
+              | Some p => awp (restore_ok ow) p (fun _ _ => True) (fun _ _ => True) s' | None => True end).
+  assert (HH : forall s' e, H s' e) by (intros s' e; unfold H; destruct (is_OSError e); exact I).
+  set (loc := tf_location t).
+  assert (Hrest : forall s1, (ow = false -> wfs s1 loc = None) -> awp (restore_ok ow)
+     (mkdirs (dirname loc) ;;; call_unit (Move (tf_payload t) loc) ;;; remove_file (tf_info t) ;;; (Ret (inl tt) : prog (unit + bool * str)))
+     (fun _ _ => True) H s1).
+  { intros s1 Hs1. apply awp_bind.
+    assert (Hmv : forall s2, (ow = false -> wfs s2 loc = None \/ under loc (dirname loc) = true) ->
+              awp (restore_ok ow) (call_unit (Move (tf_payload t) loc) ;;; remove_file (tf_info t) ;;; (Ret (inl tt) : prog (unit + bool * str)))
+                  (fun _ _ => True) H s2).
+    { intros s2 Hs2. apply awp_bind. apply awp_call_unit; [reflexivity|split; [exact Hs2|exact I]| |intros; apply HH].
+      intros s3 [He3 _]. apply awp_bind. eapply awp_mono; [| |apply (awp_remove_info ow (tf_info t) s3)]; [intros; exact I|intros; apply HH|].
+      (* the payload is gone: it was the source of the move *)
+      simpl in He3. destruct He3 as [_ [_ [_ [Hgone _]]]]. rewrite <- Hwf. apply Hgone. apply under_refl. }
+    unfold mkdirs. apply awp_bind. apply awp_call_bool; [reflexivity|split; exact I|]. intros b s2 [He _].
+    assert (Hs2 : ow = false -> wfs s2 loc = None).
+    { intros Ho. eapply same_absent; [|apply Hs1; exact Ho]. destruct b; simpl in He; tauto. }
+    destruct b.
+    - cbn [awp]. apply Hmv. intros Ho. left. apply Hs2. exact Ho.
+    - apply awp_call_unit; [reflexivity|split; exact I| |intros; apply HH].
+      intros s3 [He3 _]. apply Hmv. intros Ho. simpl in He3. destruct He3 as [_ [He3 _]].
+      destruct (He3 loc) as [E|[_ [_ E]]]; [left; rewrite E; apply Hs2; exact Ho|right; exact E]. }
+  apply awp_bind. destruct ow.
+  - cbn [awp]. apply Hrest. intros; discriminate.
+  - apply awp_call_bool; [reflexivity|split; exact I|]. intros b s1 [He _]. simpl in He. destruct He as [Hsame Hb].
+    destruct b; [cbn [awp]; exact I|].
+    apply Hrest. intros _. eapply same_absent; [exact Hsame|]. destruct (wfs s loc); [discriminate|reflexivity].
+Qed.
+
+Theorem restore_world_lemma o :
+  all_runs (fun t _ => forall s, wok (restore_ok (ro_overwrite o)) s t) (restore_main o).
+Proof.
+  assert (HT : T (world_logic (restore_ok (ro_overwrite o))) (restore_main o) (fun _ => True)).
+  { apply (restore_main_T (world_logic (restore_ok (ro_overwrite o)))).
+    - intros x Hx. apply restore_ok_plain. destruct x; try discriminate; exact I.
+    - intros t Ht. apply restore_one_ok. exact Ht. }
+  generalize (all_runs_forall (fun _ : wstate => True) (restore_main o) (fun s t _ => wok (restore_ok (ro_overwrite o)) s t)
            (fun s _ => all_runs_mono _ _ _ (fun t out H => proj1 H) (awp_sound _ _ _ _ s (HT s)))).
   apply all_runs_mono. intros t out H s. apply H. exact I.
 Qed.
